@@ -16,6 +16,7 @@ import decimal
 import functools
 import importlib
 import pkgutil
+import sys
 
 from hypothesis import strategies as st
 
@@ -37,8 +38,14 @@ def universe():
     for m in pkgutil.walk_packages(pkg.__path__, pkg.__name__ + "."):
         mod = importlib.import_module(m.name)
         for k, v in list(vars(mod).items()):
-            if isinstance(v, type) and issubclass(v, Aggregate) and v.__module__ == mod.__name__:
-                found[(v.__module__, v.__name__)] = v
+            # classes are taken where they are bound under their own name (however they were created: class statement or factory)
+            if isinstance(v, type) and issubclass(v, Aggregate) and k == v.__name__ and (v.__module__ == mod.__name__ or not v.__module__.startswith(pkg.__name__ + ".") or getattr(sys.modules.get(v.__module__), v.__name__, None) is not v):
+                found[(mod.__name__, v.__name__)] = v
+    # the same class re-exported by several modules counts once
+    uniq = {}
+    for (modname, name), v in sorted(found.items()):
+        uniq.setdefault(id(v), ((modname, name), v))
+    found = dict(uniq.values())
     out = {}
     for (modname, name), v in sorted(found.items()):
         if name.isupper():
